@@ -1,7 +1,7 @@
 (* Props/C02.v — the parser assigns the grammar's precedence, associativity and grouping. *)
 From Coq Require Import ZArith List Bool.
 From Rscel Require Import Base.Prims Model.Value Model.Lexer Model.Ast Model.Parser.
-From Rscel Require Import Proofs.ParseAssoc.
+From Rscel Require Import Proofs.ParseAssoc Proofs.Literals Proofs.StrLit Proofs.Whitespace.
 Import ListNotations.
 Open Scope Z_scope.
 
@@ -83,3 +83,13 @@ Example C02_example :
    | POk (ETernary _ _ _ (ETernary _ _ _ (EUnary _ _))) _ => true
    | _ => false end) = true.
 Proof. vm_compute. split; reflexivity. Qed.
+
+(** white space before a token is skipped whatever its amount: the tokenizer reaches the same character
+    with the same remaining input after any run of blanks, tabs and newlines *)
+Theorem C02_leading_whitespace_irrelevant : forall ws1 ws2 c rest,
+  Forall (fun x => is_ws x = true) ws1 -> Forall (fun x => is_ws x = true) ws2 -> is_ws c = false ->
+  let r1 := skip_ws (S (length (ws1 ++ c :: rest))) (mkScan (ws1 ++ c :: rest) 0 0) in
+  let r2 := skip_ws (S (length (ws2 ++ c :: rest))) (mkScan (ws2 ++ c :: rest) 0 0) in
+  snd (fst r1) = snd (fst r2) /\ sc_rest (snd r1) = sc_rest (snd r2) /\ sc_rest (snd r1) = rest.
+Proof. exact leading_whitespace_irrelevant. Qed.
+Print Assumptions C02_leading_whitespace_irrelevant.
